@@ -8,7 +8,6 @@
 
 use std::sync::atomic::{AtomicU64, Ordering};
 
-use bytes::Bytes;
 use chrono::{TimeZone, Utc};
 use proptest::prelude::*;
 use routinator::collector::verif::RepositoryState;
@@ -69,7 +68,18 @@ fn header_value(h: &MHeader) -> Result<StoredPointHeader, Verdict> {
     }
 }
 
+fn caught(kind: &str, r: Result<Verdict, String>) -> Verdict {
+    match r {
+        Ok(v) => v,
+        Err(p) => fail(kind, "panic", format!("reader/writer panicked: {}", p)),
+    }
+}
+
 pub fn judge_sequence(recs: &[AnyRec], info: &mut CaseInfo) -> Verdict {
+    caught("sequence", catch(|| judge_sequence_in(recs, info)))
+}
+
+fn judge_sequence_in(recs: &[AnyRec], info: &mut CaseInfo) -> Verdict {
     let mut buf: Vec<u8> = Vec::new();
     let mut written: Vec<(Written, usize)> = Vec::new();
     let mut present = 0;
@@ -254,6 +264,10 @@ pub struct MPoint {
 static FILE_NO: AtomicU64 = AtomicU64::new(0);
 
 fn judge_point(dir: &std::path::Path, store: &Store, p: &MPoint, info: &mut CaseInfo) -> Verdict {
+    caught("point", catch(|| judge_point_in(dir, store, p, info)))
+}
+
+fn judge_point_in(dir: &std::path::Path, store: &Store, p: &MPoint, info: &mut CaseInfo) -> Verdict {
     let path = dir.join(format!("point-{}.bin", FILE_NO.fetch_add(1, Ordering::SeqCst)));
     let expect_manifest = expected_manifest(&p.manifest);
     let objects: Vec<StoredObject> = p.objects.iter().map(|o| o.to_real()).collect();
@@ -349,6 +363,10 @@ fn judge_point(dir: &std::path::Path, store: &Store, p: &MPoint, info: &mut Case
 /// write+read unchanged and the second read must consume exactly what was written.
 /// Only inputs that the independent walker finds complete are decoded (no huge length fields).
 pub fn judge_bytes(data: &[u8], info: &mut CaseInfo) -> Verdict {
+    caught("bytes", catch(|| judge_bytes_in(data, info)))
+}
+
+fn judge_bytes_in(data: &[u8], info: &mut CaseInfo) -> Verdict {
     let mut decoded_any = false;
     for rec in [Rec::Header, Rec::Manifest, Rec::Objects, Rec::Status, Rec::State] {
         let w = walk(rec, data, 1 << 20);
@@ -513,8 +531,8 @@ pub fn run(ctx: &Ctx, rep: &mut Report, replay: Option<&serde_json::Value>) {
         match t.sub.as_str() {
             "sequence" | "big" => run_case(ctx, rep, &t.sub, &serde_json::from_value::<Vec<AnyRec>>(t.case).expect("case"), |c, i| judge_sequence(c, i)),
             "point" => run_case(ctx, rep, "point", &serde_json::from_value::<MPoint>(t.case).expect("case"), point),
-            "bytes" | "corpus" => run_case(ctx, rep, &t.sub, &serde_json::from_value::<Hex>(t.case).expect("case"), |d, i| judge_bytes(&d.0, i)),
-            other if other.starts_with("fuzz:") => run_case(ctx, rep, other, &serde_json::from_value::<Hex>(t.case).expect("case"), |d, i| judge_bytes(&d.0, i)),
+            "bytes" => run_case(ctx, rep, &t.sub, &serde_json::from_value::<Hex>(t.case).expect("case"), |d, i| judge_bytes(&d.0, i)),
+            other if other.starts_with("fuzz:") || other.starts_with("corpus:") => run_case(ctx, rep, other, &serde_json::from_value::<Hex>(t.case).expect("case"), |d, i| judge_bytes(&d.0, i)),
             other => panic!("unknown sub {}", other),
         }
         return;
@@ -528,5 +546,4 @@ pub fn run(ctx: &Ctx, rep: &mut Report, replay: Option<&serde_json::Value>) {
     if ctx.tier == Tier::Thorough {
         crate::fz::campaign(ctx, rep, "rt_records", 3_000_000, 4096, |d, i| judge_bytes(d, i));
     }
-    let _ = Bytes::new();
 }
